@@ -134,12 +134,20 @@ func eval(t string, args ...operand) (res string, arm int) {
 
 var counts = map[string]int{}
 
+// trace: announce every case before it is evaluated and flush, so that the input
+// of a fatal crash (which no recover() can catch) is on record.
+var trace = false
+
 func emit(kind, t string, w string, errOK bool, args ...operand) string {
-	r, arm := eval(t, args...)
 	a := make([]string, len(args))
 	for i := range args {
 		a[i] = args[i].s
 	}
+	if trace {
+		hx.Emit(Case{K: "pre", Op: t, A: a, R: kind})
+		hx.Flush()
+	}
+	r, arm := eval(t, args...)
 	counts[kind]++
 	hx.Emit(Case{K: kind, Op: t, A: a, R: r, W: w, E: errOK, Arm: arm})
 	return r
@@ -1013,6 +1021,7 @@ func main() {
 	nrand := flag.Int("n", 2000, "number of random operand tuples per group")
 	rep := flag.String("rep", "posix", "posix (address-space optimised / union) or fallback (smallints = 0)")
 	small := flag.Bool("small", false, "reduced boundary pools (quick tier)")
+	flag.BoolVar(&trace, "trace", false, "announce each case before evaluating it (used after a crash)")
 	flag.Parse()
 	if *rep == "fallback" {
 		if !starlark.VerifDisableSmallInts() {
